@@ -198,16 +198,23 @@ def amf_str(s):
     return be16(len(s)) + s.encode()
 
 
-def metadata_msg(acodec_id, rate):
-    """onMetaData ECMA array; returns 'I:' item (model gets the parsed values)"""
+def metadata_msg(acodec_id, rate, acodec_str=None, rate_str=None):
+    """onMetaData ECMA array; returns 'I:' item (model gets the parsed values: audiocodecid / audiosamplerate when they are AMF0
+    numbers).  acodec_str / rate_str: the property is there but is a STRING (lal's `.(float64)` assertion fails: ignored)"""
     props = [("width", 640.0), ("height", 360.0)]
-    if acodec_id is not None:
+    if acodec_str is not None:
+        props.append(("audiocodecid", acodec_str))
+        acodec_id = None
+    elif acodec_id is not None:
         props.append(("audiocodecid", float(acodec_id)))
-    if rate is not None:
+    if rate_str is not None:
+        props.append(("audiosamplerate", rate_str))
+        rate = None
+    elif rate is not None:
         props.append(("audiosamplerate", float(rate)))
     b = b"\x02" + amf_str("onMetaData") + b"\x08" + len(props).to_bytes(4, "big")
     for k, v in props:
-        b += amf_str(k) + amf_number(v)
+        b += amf_str(k) + (b"\x02" + amf_str(v) if isinstance(v, str) else amf_number(v))
     b += b"\x00\x00\x09"
     return "I:%s:%s:%s" % ("-" if acodec_id is None else "%d" % acodec_id, "-" if rate is None else "%d" % rate, hex_tok(b))
 
@@ -568,6 +575,59 @@ def gen_cases(tier, rng):
         ms = gen_stream(rng, rng.choice(["avc", "hevc"]), "aac", rng.randrange(10, 20), rng.randrange(14, 30), opts)
         joins = {rng.randrange(0, len(ms)): ["Jt:1"]}
         yield Case(e2e_line(rng.choice([100, 400]), 1, 1, ms, joins, wk=0, tsgop=rng.choice([0, 1])), cls="e2e-jump")
+    # onMetaData at EVERY position relative to the sequence headers, the end of the RTSP analysis and the first frames, for
+    # AAC (the ASC names one rate, the metadata none / the same / another / a string), Opus and G.711, audiocodecid absent /
+    # agreeing / naming another codec / a string: what the SDP announces and what the packers run at must agree
+    def meta_variants(acodec, asc_rate):
+        own = {"aac": 10, "opus": 13, "g711a": 7, "g711u": 8}[acodec]
+        other_rate = 44100 if asc_rate != 44100 else 22050
+        v = [dict(acodec_id=None, rate=None), dict(acodec_id=own, rate=asc_rate), dict(acodec_id=own, rate=other_rate),
+             dict(acodec_id=None, rate=other_rate), dict(acodec_id=own, rate=None, rate_str="%d" % other_rate),
+             dict(acodec_id=None, rate=0), dict(acodec_id=None, rate=None, acodec_str="mp4a")]
+        if acodec != "aac":
+            v.append(dict(acodec_id=None, rate=16000))
+        else:
+            v.append(dict(acodec_id=13, rate=other_rate))      # names another codec than the stream carries
+        return v
+    meta_cases = []
+    for acodec, sfi in (("aac", 7), ("aac", 4), ("opus", None), ("g711a", None), ("g711u", None)):
+        asc_rate = {7: 22050, 4: 44100}.get(sfi, 48000 if acodec == "opus" else 8000)
+        for order in ("va", "av"):
+            vsh = Msg(9, 0, hex_tok(avc_seq_header([AVC_SETS[0][0]], [AVC_SETS[0][1]])))
+            ash = audio_msgs_header(acodec, sfi if sfi is not None else 4, 2)
+            heads = ([vsh] + ash) if order == "va" else (ash + [vsh])
+            frames = []
+            for i in range(3):
+                frames.append(audio_msg(rng, acodec, 23 * i, 40))
+                frames.append(video_msg("avc", i == 0, 40 * i, 0, [nal_token(rng, bytes([0x65 if i == 0 else 0x41]), 20)[0]]))
+            base_items = heads + frames
+            own_id = {"aac": 10, "opus": 13, "g711a": 7, "g711u": 8}[acodec]
+            for mv in meta_variants(acodec, asc_rate):
+                # a metadata that names ANOTHER codec than the stream carries is believed while the analysis runs (the
+                # publisher lied: out of scope); after the SDP has been handed out it must change nothing
+                lie = mv.get("acodec_id") not in (None, own_id)
+                for pos in range(len(heads) if lie else 0, len(heads) + 4):
+                    items = list(base_items)
+                    items.insert(pos, metadata_msg(**mv))
+                    meta_cases.append(Case(rtsp_line(items), cls="rtsp-meta-pos"))
+                # two metadata messages: the usual one in front, a contradicting one after the headers
+                items = [metadata_msg(acodec_id=own_id, rate=asc_rate)] + heads + [metadata_msg(**mv)] + frames
+                meta_cases.append(Case(rtsp_line(items), cls="rtsp-meta-pos"))
+    if not thorough:
+        rng.shuffle(meta_cases)
+        meta_cases = meta_cases[:220]
+    for c in meta_cases:
+        yield c
+    # the same through logic.Group: metadata after the headers, players joining
+    for acodec, sfi, mrate in (("aac", 7, 44100), ("g711a", None, 16000), ("opus", None, 16000)):
+        vsh = Msg(9, 0, hex_tok(avc_seq_header([AVC_SETS[0][0]], [AVC_SETS[0][1]])))
+        ash = audio_msgs_header(acodec, sfi if sfi is not None else 4, 2)
+        own = {"aac": 10, "opus": 13, "g711a": 7}[acodec]
+        ms = [metadata_msg(own, None), vsh] + ash + [metadata_msg(own, mrate)]
+        for i in range(6):
+            ms.append(audio_msg(rng, acodec, 23 * i, 40))
+            ms.append(video_msg("avc", i % 3 == 0, 40 * i, 0, [nal_token(rng, bytes([0x65 if i % 3 == 0 else 0x41]), 20)[0]]))
+        yield Case(e2e_line(1000, 0, 1, ms, {0: ["Jr:1"], 5: ["Jr:2"]}, wk=0, tsgop=0), cls="e2e-meta")
     # late sequence headers (after the probe / analysis windows): known limitation classes
     for k in (17, 20):
         ms = gen_stream(rng, "avc", "aac", 6, k + 8, dict(vsh_at=k + 2, video_start=23 * (k + 2), sizes=[9], audio_sizes=[8], sfi=4))
